@@ -106,6 +106,52 @@ Theorem C09_roundtrip_examples :
   forallb prop_wf (cq_props ex_connect) = true /\ forallb prop_canon (sq_props ex_subscribe) = true.
 Proof. exact roundtrip_examples. Qed.
 
+From Minimq Require Import Machine Run WireInv Wire PingQuiet Healthy Owed Replay Sends.
+
+(* ---- the request on the wire ----
+   A publish with QoS 1 or 2 (subscribe, unsubscribe) that returns its handle has put on the wire exactly what the queues
+   owed before, followed by the encoding of the request under the identifier of the handle, and nothing else — on ANY
+   transport, however it cuts the writes; with the decode theorems above, what the broker reads is the request. *)
+Theorem C09_publish_on_wire : forall fuel r w w' op,
+  WInv (w_sess w) -> PQ w -> op_publish fuel r w = (w', ODone (Some op)) ->
+  exists w1 bs cap off,
+    flush_outbound fuel w = (w1, ODone tt) /\
+    enc_publish cap (pub_request r (effective_qos (w_sess w1) (pr_qos r)) (op_pid op)) = SOk off bs /\
+    w_wire w' = w_wire w ++ owed (s_ob (w_sess w)) ++ bs /\ next_step (s_ob (w_sess w')) = None.
+Proof. exact op_publish_wire. Qed.
+
+Theorem C09_subscribe_on_wire : forall fuel topics ps w w' op,
+  WInv (w_sess w) -> PQ w -> op_subscribe fuel topics ps w = (w', ODone (Some op)) ->
+  exists bs cap off,
+    enc_subscribe cap {| sq_pid := op_pid op; sq_props := ps; sq_topics := topics |} = SOk off bs /\
+    w_wire w' = w_wire w ++ owed (s_ob (w_sess w)) ++ bs /\ next_step (s_ob (w_sess w')) = None.
+Proof. exact op_subscribe_wire. Qed.
+
+Theorem C09_unsubscribe_on_wire : forall fuel topics ps w w' op,
+  WInv (w_sess w) -> PQ w -> op_unsubscribe fuel topics ps w = (w', ODone (Some op)) ->
+  exists bs cap off,
+    enc_unsubscribe cap {| uq_pid := op_pid op; uq_props := ps; uq_topics := topics |} = SOk off bs /\
+    w_wire w' = w_wire w ++ owed (s_ob (w_sess w)) ++ bs /\ next_step (s_ob (w_sess w')) = None.
+Proof. exact op_unsubscribe_wire. Qed.
+
+(* computed: on the resumed connection of Replay.v (queues owe PUBACK 7, PUBREL 2, PUBLISH 1 DUP), three bytes at a time *)
+Theorem C09_publish_on_wire_example :
+  snd (op_publish FUEL ex_pub3 ex_frag) = ODone (Some {| op_kind := 0; op_pid := 3; op_gen := 1 |}) /\
+  owed (s_ob (w_sess ex_frag)) = [64; 3; 0; 7; 0; 98; 3; 0; 2; 0; 58; 9; 0; 1; 116; 0; 1; 0; 1; 2; 3] /\
+  w_wire (fst (op_publish FUEL ex_pub3 ex_frag)) =
+    w_wire ex_frag ++ owed (s_ob (w_sess ex_frag)) ++ [51; 8; 0; 1; 118; 0; 3; 0; 7; 7].
+Proof. exact publish_wire_example. Qed.
+
+
+(* QoS 0: written directly, behind the drained queues *)
+Theorem C09_publish_q0_on_wire : forall fuel r w w',
+  WInv (w_sess w) -> PQ w -> op_publish fuel r w = (w', ODone None) ->
+  exists w1 bs cap off,
+    flush_outbound fuel w = (w1, ODone tt) /\ effective_qos (w_sess w1) (pr_qos r) = Q0 /\
+    enc_publish cap (pub_request0 r) = SOk off bs /\
+    w_wire w' = w_wire w ++ owed (s_ob (w_sess w)) ++ bs.
+Proof. exact op_publish_q0_wire. Qed.
+
 Print Assumptions C09_property_size.
 Print Assumptions C09_block_size.
 Print Assumptions C09_varint_length.
@@ -123,3 +169,8 @@ Print Assumptions C09_unsubscribe_decodes_to_request.
 Print Assumptions C09_disconnect_decodes_to_request.
 Print Assumptions C09_ack_decodes_to_request.
 Print Assumptions C09_roundtrip_examples.
+Print Assumptions C09_publish_on_wire.
+Print Assumptions C09_subscribe_on_wire.
+Print Assumptions C09_unsubscribe_on_wire.
+Print Assumptions C09_publish_on_wire_example.
+Print Assumptions C09_publish_q0_on_wire.
